@@ -1230,7 +1230,7 @@ class UGrid(DimensionConvention[UGridKind, UGridIndex]):
             topology_variables.append(update_connectivity(
                 topology.face_edge_connectivity, topology.face_edge_array,
                 new_face_indexes, new_edge_indexes,
-                primary_dimension=topology.edge_dimension, fill_value=new_fill_value))
+                primary_dimension=topology.face_dimension, fill_value=new_fill_value))
 
         if topology.has_valid_face_face_connectivity:
             topology_variables.append(update_connectivity(
@@ -1242,7 +1242,7 @@ class UGrid(DimensionConvention[UGridKind, UGridIndex]):
             topology_variables.append(update_connectivity(
                 topology.edge_face_connectivity, topology.edge_face_array,
                 new_edge_indexes, new_face_indexes,
-                primary_dimension=topology.face_dimension, fill_value=new_fill_value))
+                primary_dimension=topology.edge_dimension, fill_value=new_fill_value))
 
         if has_edges and topology.has_valid_edge_node_connectivity:
             topology_variables.append(update_connectivity(
